@@ -294,6 +294,31 @@ pub fn check(case: &Case) -> CaseResult {
         "histogram:atomic-differs",
         "atomic and non-atomic strategies disagree for the same multiset:\n exp={o_exp:?}\n atomic={o_atomic:?}"
     );
+    // the same multiset through the other public ways in: explicit constructors and the
+    // AggregateValue<T> impl that #[aggregate(strategy = Histogram<..>)] uses per raw value
+    {
+        let obs_of = |i: &Input| OneObs(to_obs(i));
+        let mut h_new: Histogram<OneObs, ExponentialAggregationStrategy> = Histogram::new(ExponentialAggregationStrategy::new());
+        let shared_new: SharedHistogram<OneObs, AtomicExponentialAggregationStrategy> =
+            SharedHistogram::new(AtomicExponentialAggregationStrategy::new());
+        for i in &case.inputs {
+            <Histogram<OneObs, ExponentialAggregationStrategy> as AggregateValue<OneObs>>::insert(&mut h_new, obs_of(i));
+            shared_new.add_value(obs_of(i));
+        }
+        let o_new = closed_obs(&no_panic("histogram-close", || h_new.close())?)?;
+        let o_shared_new = closed_obs(&no_panic("histogram-close", || shared_new.close())?)?;
+        let same = |a: &[(f64, u64)], b: &[(f64, u64)]| a.len() == b.len() && a.iter().zip(b).all(|(x, y)| x.0.to_bits() == y.0.to_bits() && x.1 == y.1);
+        vensure!(
+            same(&o_new, &o_exp),
+            "histogram:constructor-or-insert-path-differs",
+            "Histogram::new(ExponentialAggregationStrategy::new()) fed through AggregateValue::<T>::insert differs from Histogram::default() fed through add_value:\n default={o_exp:?}\n new+insert={o_new:?}"
+        );
+        vensure!(
+            same(&o_shared_new, &o_exp),
+            "histogram:constructor-or-insert-path-differs",
+            "SharedHistogram::new(AtomicExponentialAggregationStrategy::new()) differs from the non-atomic histogram:\n exp={o_exp:?}\n shared::new={o_shared_new:?}"
+        );
+    }
     // re-aggregation fixpoint
     let mut again: Histogram<OneObs, ExponentialAggregationStrategy> = Histogram::default();
     <Histogram<OneObs, ExponentialAggregationStrategy> as AggregateValue<_>>::insert(&mut again, c_exp);
@@ -395,6 +420,57 @@ pub fn check(case: &Case) -> CaseResult {
             "histogram:sort-and-merge",
             "sort-and-merge must report exactly the distinct recorded values ascending with counts:\n got={o_sm:?}\n expected (value,count)={expect:?}"
         );
+        // other inline capacities (always-heap, one, larger than the default 32) and the
+        // explicit constructor are separate monomorphisations of the same behaviour
+        macro_rules! sm_variant {
+            ($n:literal, $ctor:expr) => {{
+                let mut h: Histogram<OneObs, SortAndMerge<$n>> = $ctor;
+                let mut m = vec![];
+                for i in &case.inputs {
+                    add_to(&mut h, &mut m, i);
+                }
+                let o = closed_obs(&no_panic("histogram-close", || h.close())?)?;
+                vensure!(
+                    o.len() == o_sm.len() && o.iter().zip(&o_sm).all(|(x, y)| x.0.to_bits() == y.0.to_bits() && x.1 == y.1),
+                    "histogram:sort-and-merge-capacity-variant",
+                    "SortAndMerge<{}> differs from SortAndMerge<32> for the same inputs:\n <32>={o_sm:?}\n <{}>={o:?}",
+                    $n,
+                    $n
+                );
+            }};
+        }
+        sm_variant!(0, Histogram::default());
+        sm_variant!(1, Histogram::new(SortAndMerge::new()));
+        sm_variant!(64, Histogram::default());
+        sm_variant!(2, Histogram::new(SortAndMerge::<2>::new()));
+        // a closed sort-and-merge histogram merged into one that already holds values
+        if case.inputs.len() >= 2 {
+            let mid = case.inputs.len() / 2;
+            let mut left: Histogram<OneObs, SortAndMerge> = Histogram::default();
+            let mut right: Histogram<OneObs, SortAndMerge> = Histogram::default();
+            let mut m = vec![];
+            for i in &case.inputs[..mid] {
+                add_to(&mut left, &mut m, i);
+            }
+            for i in &case.inputs[mid..] {
+                add_to(&mut right, &mut m, i);
+            }
+            let closed_right = no_panic("histogram-close", || right.close())?;
+            <Histogram<OneObs, SortAndMerge> as AggregateValue<_>>::insert(&mut left, closed_right);
+            let o_fold = closed_obs(&no_panic("histogram-close", || left.close())?)?;
+            let n_fold: u128 = o_fold.iter().map(|o| o.1 as u128).sum();
+            let n_all: u128 = o_sm.iter().map(|o| o.1 as u128).sum();
+            vensure!(
+                n_fold == n_all,
+                "histogram:reaggregation-changes-counts",
+                "a closed sort-and-merge histogram of the second half merged into the histogram of the first half holds {n_fold} observations, all inputs are {n_all}"
+            );
+            vensure!(
+                o_fold.windows(2).all(|w| w[0].1 == 0 || w[1].1 == 0 || w[0].0 / w[0].1 as f64 <= (w[1].0 / w[1].1 as f64) * (1.0 + 1e-12)),
+                "histogram:sort-and-merge",
+                "folded sort-and-merge histogram is not ascending: {o_fold:?}"
+            );
+        }
         let mut again: Histogram<OneObs, SortAndMerge> = Histogram::default();
         <Histogram<OneObs, SortAndMerge> as AggregateValue<_>>::insert(&mut again, c_sm);
         let o_again = closed_obs(&again.close())?;
@@ -490,6 +566,64 @@ pub fn check_typed(case: &TypedCase) -> CaseResult {
     }
     let mu: Vec<(f64, u64)> = case.u.iter().map(|u| (*u as f64, 1)).collect();
     check_exponential(&mu, &closed_obs(&hu.close())?, "Histogram<u64>")?;
+    // the other integer / float source types and the atomic histogram over typed sources
+    {
+        let sh_u: SharedHistogram<u64> = SharedHistogram::default();
+        let mut h32: Histogram<u32> = Histogram::default();
+        let mut husz: Histogram<usize> = Histogram::default();
+        let mut h16: Histogram<u16, SortAndMerge<4>> = Histogram::default();
+        let (mut m32, mut musz, mut m16) = (vec![], vec![], vec![]);
+        for u in &case.u {
+            sh_u.add_value(*u);
+            let v32 = (*u % (1u64 << 32)) as u32;
+            h32.add_value(v32);
+            m32.push((v32 as f64, 1u64));
+            husz.add_value(*u as usize);
+            musz.push((*u as usize as f64, 1u64));
+            let v16 = (*u % 65_536) as u16;
+            h16.add_value(&v16);
+            m16.push(v16 as f64);
+        }
+        check_exponential(&mu, &closed_obs(&sh_u.close())?, "SharedHistogram<u64>")?;
+        check_exponential(&m32, &closed_obs(&h32.close())?, "Histogram<u32>")?;
+        check_exponential(&musz, &closed_obs(&husz.close())?, "Histogram<usize>")?;
+        let o16 = closed_obs(&h16.close())?;
+        m16.sort_by(|a, b| a.partial_cmp(b).unwrap());
+        let mut e16: Vec<(f64, u64)> = vec![];
+        for v in m16 {
+            match e16.last_mut() {
+                Some(l) if l.0 == v => l.1 += 1,
+                _ => e16.push((v, 1)),
+            }
+        }
+        vensure!(
+            o16.len() == e16.len() && o16.iter().zip(&e16).all(|(g, e)| g.1 == e.1 && g.0 == e.0 * e.1 as f64),
+            "histogram:sort-and-merge",
+            "Histogram<u16, SortAndMerge<4>> (values added by reference): got {o16:?}, expected (value,count) {e16:?}"
+        );
+        let mut hf32: Histogram<f32> = Histogram::default();
+        let sh_f: SharedHistogram<f64> = SharedHistogram::default();
+        let (mut mf32, mut mf) = (vec![], vec![]);
+        for f in &case.f {
+            if f.0.is_finite() && f.0 >= 0.0 && f.0 < (1u64 << 40) as f64 {
+                let v = f.0 as f32;
+                hf32.add_value(v);
+                mf32.push((v as f64, 1u64));
+                sh_f.add_value(f.0);
+                mf.push((f.0, 1u64));
+            }
+        }
+        check_exponential(&mf32, &closed_obs(&hf32.close())?, "Histogram<f32>")?;
+        check_exponential(&mf, &closed_obs(&sh_f.close())?, "SharedHistogram<f64>")?;
+        let sh_d: SharedHistogram<Duration> = SharedHistogram::default();
+        let mut msd = vec![];
+        for n in &case.d {
+            let d = Duration::from_nanos(*n);
+            sh_d.add_value(d);
+            msd.push((d.as_secs_f64() * 1000.0, 1u64));
+        }
+        check_exponential(&msd, &closed_obs(&sh_d.close())?, "SharedHistogram<Duration>")?;
+    }
     let mut hf: Histogram<f64, SortAndMerge> = Histogram::default();
     for f in &case.f {
         hf.add_value(f.0);
@@ -628,7 +762,7 @@ pub fn run(ctx: &mut Ctx) {
         .threads(ctx.tier.pick(4, 8)),
         || {
             (
-                prop::collection::vec(prop_oneof![0u64..64, 0u64..1_000_000, 0u64..(1 << 43)], 0..30),
+                prop::collection::vec(prop_oneof![0u64..64, 0u64..1_000_000, 0u64..(1 << 43)], 0..50),
                 prop::collection::vec(arb_scaled_value().prop_map(F), 0..30),
                 prop::collection::vec(prop_oneof![0u64..2_000_000, 0u64..10_000_000_000, 0u64..(1 << 50)], 0..30),
             )
